@@ -24,7 +24,8 @@ type op struct {
 	BehTag string
 	Att    string
 	Arg    string
-	N      int // attack variant
+	N      int    // attack variant
+	Method string // nav: HTTP method ("" = GET)
 }
 
 func (o op) String() string {
@@ -441,7 +442,9 @@ func (h *H) exec(o *op) {
 	switch o.K {
 	case "nav":
 		h.lastTgt[o.B] = o.Target
-		s := h.do(o, b, b.ReqFor(o.Target))
+		req := b.ReqFor(o.Target)
+		req.Method = o.Method
+		s := h.do(o, b, req)
 		if h.w.IsLoginRedirect(s.R) {
 			h.lastLoc[o.B] = s.R.Location()
 		}
@@ -732,6 +735,8 @@ func genOps(c *sim.Case, p opProfile, maxOps int) []op {
 		switch sim.Weighted(c, "op", p.wNav, p.wLogin, p.wAuthorize, p.wCallback, p.wLogout, p.wAdvance, p.wIdP, p.wAttack) {
 		case 0:
 			o.K, o.Target = "nav", genTarget(c, "t")
+			// what the service decides does not depend on the method of the request it is asked about
+			o.Method = []string{"", "", "", "", "", "", "POST", "POST", "HEAD", "PUT", "OPTIONS", "DELETE"}[sim.Pick(c, "method", 12)]
 		case 1:
 			o.K, o.Target = "login", genTarget(c, "t")
 		case 2:
